@@ -436,11 +436,13 @@ Example C06_run_confined_example :
    [(CRename, COk); (CRename, COk)]).
 Proof. exact confined_run_applies. Qed.
 
-(* the hypothesis on the links cannot be dropped: lnk/a -> b is deferred after all three tests said yes; the plan then
-   renames lnk away and puts a link to /out in its place; the retried rename moves /out/a to /out/b, status 0 *)
+(* Finding F38 (fixed), the code BEFORE the repair ([pre_f38]: a deferred rename is retried without running the
+   containment tests again): lnk/a -> b is deferred after all tests said yes; the plan then renames lnk away and puts a
+   link to /out in its place; the retried rename moves /out/a to /out/b, status 0.  The current code runs the tests
+   again and refuses: [C06_deferred_rename_is_retested] at the end of this file. *)
 Example C06_deferred_rename_is_not_retested :
   WF swap_fs /\ chdir swap_fs [n_in] = Some [n_in] /\
-  (let r := run (cr_cfg MName) swap_plan [] swap_fs in (r_status r, r_final r)) =
+  (let r := run (cr_cfg_v pre_f38 MName) swap_plan [] swap_fs in (r_status r, r_final r)) =
   (0%Z,
    [([n_in], NDir); ([n_in; n_sub], NDir); ([n_in; n_sub; n_a], NFile 1); ([n_in; n_sub; n_b], NFile 2);
     ([n_in; cr_lnk2], NLink 4 {| up_abs := false; up_comps := [n_sub] |});
@@ -695,3 +697,153 @@ Proof.
   - assert (E : input_roots (ex_options MPath true false) ex_tree ex_dirs = [[Examples.ex_in]]) by (vm_compute; reflexivity).
     rewrite E in Ip. destruct Ip as [<-|[]]. exact Pp.
 Qed.
+
+(* ---------- F38 (fixed): deferred renames are tested again before they are retried --------------------------------- *)
+From Tempren Require Import Pipe.BacklogVerify.
+
+(* the second pass runs, on the tree as it is when the deferred entry is retried, exactly the tests of the first pass
+   ([verify_destination]: the four tests as one verdict) on the entry read as the file (input directory, source) ... *)
+Theorem C06_deferred_retest_is_first_pass_test : forall c d src dst s,
+  v_backlog_recheck (c_var c) = true ->
+  backlog_verify (c_var c) s d src dst = verify_destination (c_var c) s {| pf_dir := d; pf_rel := src |} dst.
+Proof. exact deferred_retest_is_first_pass_test. Qed.
+Print Assumptions C06_deferred_retest_is_first_pass_test.
+
+Theorem C06_first_pass_runs_verify_destination : forall c f r rest w cwd backlog,
+  first_pass c ((f, r) :: rest) w cwd backlog =
+  match chdir (w_fs w) (pf_dir f) with
+  | None => (w, cwd, backlog, Some ExOther)
+  | Some cwd1 =>
+    match generate (c_mode c) f r with
+    | inr e => (w, cwd1, backlog, Some e)
+    | inl np =>
+      if ppath_eqb np (pf_rel f) then first_pass c rest w cwd1 backlog
+      else match verify_destination (c_var c) (w_fs w) f np with
+           | Some e => (w, cwd1, backlog, Some e)
+           | None =>
+             match renamer c w cwd1 (pf_rel f) np false with
+             | (w1, None) => first_pass c rest w1 cwd1 backlog
+             | (w1, Some e) =>
+               if is_file_exists e then first_pass c rest w1 cwd1 ((pf_dir f, pf_rel f, np) :: backlog)
+               else (w1, cwd1, backlog, Some e)
+             end
+           end
+    end
+  end.
+Proof. exact first_pass_verify. Qed.
+Print Assumptions C06_first_pass_runs_verify_destination.
+
+(* ... and a deferred entry that fails them ends the run before anything is touched: the world is exactly as it was
+   when the entry came up, the error is InvalidDestinationError (status 1) or, on a symlink loop, "other" (126) *)
+Theorem C06_deferred_refused_before_touch : forall c d src dst rest w cwd cwd1 e,
+  (if v_backlog_chdir (c_var c) then chdir (w_fs w) d else Some cwd) = Some cwd1 ->
+  backlog_verify (c_var c) (w_fs w) d src dst = Some e ->
+  second_pass c ((d, src, dst) :: rest) w cwd = (w, cwd1, Some e) /\ (e = ExOther \/ e = ExInvalidDest).
+Proof. exact deferred_refused_before_touch. Qed.
+Print Assumptions C06_deferred_refused_before_touch.
+
+(* the plan of [C06_deferred_rename_is_not_retested] under the current code: when lnk/a -> b is retried, lnk leads to
+   /out; the run ends with InvalidDestinationError (status 1) after the two renames of the links inside /in, and
+   every entry outside the input directory is as it was *)
+Example C06_deferred_rename_is_retested :
+  (let r := run (cr_cfg MName) swap_plan [] swap_fs in (r_status r, r_error r, r_final r, r_calls r)) =
+  (1%Z, Some ExInvalidDest,
+   [([n_in], NDir); ([n_in; n_sub], NDir); ([n_in; n_sub; n_a], NFile 1); ([n_in; n_sub; n_b], NFile 2);
+    ([n_in; cr_lnk2], NLink 4 {| up_abs := false; up_comps := [n_sub] |});
+    ([n_in; cr_lnk], NLink 5 {| up_abs := true; up_comps := [cr_out] |});
+    ([cr_out], NDir); ([cr_out; n_a], NFile 3)],
+   [(CRename, COk); (CRename, COk)]) /\
+  (forall k n, is_prefix_path [n_in] k = false ->
+     (In (k, n) (r_final (run (cr_cfg MName) swap_plan [] swap_fs)) <-> In (k, n) swap_fs)).
+Proof. exact swap_run_retested. Qed.
+
+(* ---------- with the re-test in place, the symbolic links may move -------------------------------------------------------- *)
+From Tempren Require Import Pipe.ConfinedRetest.
+
+(* Every rename of a non-override run is now issued right after its tests said yes on the CURRENT tree, so the hypothesis
+   [Forall (same_links s) (r_states ...)] of [C06_run_confined_links_stable] is not needed: a run of the current code
+   (any mode, Stop / Ignore / Manual without "override", dry or real, any fault, any plan, any tree - symbolic links
+   anywhere, moved by the run or not) changes nothing outside the input directories of its plan, provided every input
+   directory is its own real path in the initial tree and no input directory lies inside another one. *)
+Theorem C06_run_confined_retest : forall c plan cwd s,
+  c_var c = fixed -> WF s -> no_override c ->
+  (forall f r, In (f, r) plan -> chdir s (pf_dir f) = Some (pf_dir f)) ->
+  (forall f r f' r', In (f, r) plan -> In (f', r') plan ->
+     is_prefix_path (pf_dir f) (pf_dir f') = true -> pf_dir f = pf_dir f') ->
+  forall k n,
+    (In (k, n) (r_final (run c plan cwd s)) /\ ~ In (k, n) s) \/ (In (k, n) s /\ ~ In (k, n) (r_final (run c plan cwd s))) ->
+    exists f r, In (f, r) plan /\ is_prefix_path (pf_dir f) k = true.
+Proof. exact run_confined_retest. Qed.
+Print Assumptions C06_run_confined_retest.
+
+(* ... and so does every intermediate state *)
+Theorem C06_every_state_confined_retest : forall c plan cwd s,
+  c_var c = fixed -> WF s -> no_override c ->
+  (forall f r, In (f, r) plan -> chdir s (pf_dir f) = Some (pf_dir f)) ->
+  (forall f r f' r', In (f, r) plan -> In (f', r') plan ->
+     is_prefix_path (pf_dir f) (pf_dir f') = true -> pf_dir f = pf_dir f') ->
+  forall h, In h (r_states (run c plan cwd s)) -> forall k n,
+    (In (k, n) h /\ ~ In (k, n) s) \/ (In (k, n) s /\ ~ In (k, n) h) ->
+    exists f r, In (f, r) plan /\ is_prefix_path (pf_dir f) k = true.
+Proof. exact every_state_confined_retest_static. Qed.
+Print Assumptions C06_every_state_confined_retest.
+
+(* the general form: whenever every input directory is its own real path in every state of the run *)
+Theorem C06_every_state_confined_dirs_real : forall c plan cwd s,
+  c_var c = fixed -> no_override c ->
+  Forall (dirs_real (plan_dirs plan)) (s :: r_states (run c plan cwd s)) ->
+  forall h, In h (r_final (run c plan cwd s) :: r_states (run c plan cwd s)) -> changes_in (plan_dirs plan) s h.
+Proof. exact every_state_confined_retest. Qed.
+Print Assumptions C06_every_state_confined_dirs_real.
+
+(* non-vacuity: the theorem applies to the plan of F38 (links are moved by that run) *)
+Example C06_retest_theorem_applies_to_f38_plan :
+  forall k n,
+    (In (k, n) (r_final (run (cr_cfg MName) swap_plan [] swap_fs)) /\ ~ In (k, n) swap_fs) \/
+    (In (k, n) swap_fs /\ ~ In (k, n) (r_final (run (cr_cfg MName) swap_plan [] swap_fs))) ->
+    exists f r, In (f, r) swap_plan /\ is_prefix_path (pf_dir f) k = true.
+Proof. exact swap_run_confined. Qed.
+
+(* ---------- ... for ANY conflict strategy, and for the whole program -------------------------------------------------------- *)
+From Tempren Require Import Pipe.ConfinedRetestOverride Whole.ConfinedRetestWhole.
+
+(* [C06_run_confined_any_strategy] without its hypothesis [Forall (same_links s) (r_states ...)]: override and the manual
+   prompt's "override" / "custom path" (outside path mode) included.  The only calls between the re-test of a deferred
+   entry and a rename issued by its conflict resolution are the mkdir -p of the attempt that ended in the conflict; they
+   only add directories, and realpath answers the same afterwards. *)
+Theorem C06_run_confined_any_strategy_retest : forall c plan cwd s,
+  c_var c = fixed -> WF s ->
+  (c_mode c = MPath -> c_strategy c = Manual -> Forall (fun a => parse_answer a <> ACustom) (c_answers c)) ->
+  (forall f r, In (f, r) plan -> chdir s (pf_dir f) = Some (pf_dir f)) ->
+  (forall f r f' r', In (f, r) plan -> In (f', r') plan ->
+     is_prefix_path (pf_dir f) (pf_dir f') = true -> pf_dir f = pf_dir f') ->
+  forall k n,
+    (In (k, n) (r_final (run c plan cwd s)) /\ ~ In (k, n) s) \/ (In (k, n) s /\ ~ In (k, n) (r_final (run c plan cwd s))) ->
+    exists f r, In (f, r) plan /\ is_prefix_path (pf_dir f) k = true.
+Proof. exact run_confined_any_strategy_retest. Qed.
+Print Assumptions C06_run_confined_any_strategy_retest.
+
+Theorem C06_every_state_confined_any_strategy_retest : forall c plan cwd s,
+  c_var c = fixed -> WF s ->
+  (c_mode c = MPath -> c_strategy c = Manual -> Forall (fun a => parse_answer a <> ACustom) (c_answers c)) ->
+  (forall f r, In (f, r) plan -> chdir s (pf_dir f) = Some (pf_dir f)) ->
+  (forall f r f' r', In (f, r) plan -> In (f', r') plan ->
+     is_prefix_path (pf_dir f) (pf_dir f') = true -> pf_dir f = pf_dir f') ->
+  forall h, In h (r_states (run c plan cwd s)) -> forall k n,
+    (In (k, n) h /\ ~ In (k, n) s) \/ (In (k, n) s /\ ~ In (k, n) h) ->
+    exists f r, In (f, r) plan /\ is_prefix_path (pf_dir f) k = true.
+Proof. exact every_state_confined_any_strategy_retest. Qed.
+Print Assumptions C06_every_state_confined_any_strategy_retest.
+
+(* the whole program ([C06_whole_confined]) without [no_links_below] and without [same_links]: symbolic links anywhere
+   in the tree, at or below the roots included, moved by the run or not *)
+Theorem C06_whole_confined_retest : forall upper lower R o text dirs s,
+  tree_ok s -> (forall l, Permutation l (o_listing o l)) ->
+  roots_not_nested (input_roots o s dirs) ->
+  (o_mode o = MPath -> o_strategy o = Manual -> Forall (fun a => parse_answer a <> ACustom) (o_answers o)) ->
+  let r := tempren_main upper lower R o text dirs s in
+  forall h, In h (r_final r :: r_states r) -> forall k n,
+    (In (k, n) h /\ ~ In (k, n) s) \/ (In (k, n) s /\ ~ In (k, n) h) ->
+    exists p, In p (input_roots o s dirs) /\ is_prefix_path p k = true.
+Proof. exact whole_confined_retest. Qed.
+Print Assumptions C06_whole_confined_retest.
